@@ -195,10 +195,13 @@ def _iter_files_in_path(
         # Before adding new ignore specs, remove any which are no longer relevant
         # as indicated by us no longer being in a subdirectory of them.
         # NOTE: Slice so we can modify as we go.
+        # NOTE: `dirname` is relative if the path we're walking was given as a
+        # relative one, so compare absolute paths on both sides.
+        abs_dirname = os.path.abspath(dirname)
         for inner_dirname, inner_file, inner_spec in inner_ignore_specs[:]:
             if not (
                 dirname == inner_dirname
-                or dirname.startswith(os.path.abspath(inner_dirname) + os.sep)
+                or abs_dirname.startswith(os.path.abspath(inner_dirname) + os.sep)
             ):
                 inner_ignore_specs.remove((inner_dirname, inner_file, inner_spec))
 
